@@ -201,3 +201,34 @@ Section Stream.
   Qed.
 
 End Stream.
+
+(* C11: a `[` that opens a line is read as "preceded by a space": it is never an index on the value of the
+   previous line *)
+Lemma bracket_at_line_head sp dg up lo V bc fuel p0 r p' :
+  pungot p0 = false -> ((ptoken p0 =? Z.of_N ch_nl)%Z || negb (phas_token p0)) = true ->
+  parser_read sp dg up lo V bc fuel p0 = Some (r, p') ->
+  match r with RTok (KPunct c) b => c = ch_lb -> b = true | _ => True end.
+Proof.
+  intros Hu Hl. unfold parser_read.
+  destruct (get_token sp dg V fuel p0) as [p|] eqn:G; [|discriminate].
+  assert (Hlh : ptoken p = T_EOS \/ pline_head p = true).
+  { unfold get_token in G. rewrite Hu, Hl in G.
+    destruct (advance sp dg V fuel (lx p0)) as [[[|] l']|]; [| |discriminate].
+    - destruct (tok l' =? Z.of_N ch_nl)%Z; inversion G; subst; right; reflexivity.
+    - inversion G; subst. left. reflexivity. }
+  destruct (ptoken p =? T_INT)%Z; [destruct (val (lx p)); intros H; inversion H; exact I|].
+  destruct (ptoken p =? T_FLOAT)%Z; [intros H; inversion H; exact I|].
+  destruct (ptoken p =? T_STRING)%Z; [destruct (val (lx p)); intros H; inversion H; exact I|].
+  destruct (ptoken p =? T_NIL)%Z; [intros H; inversion H; exact I|].
+  destruct (ptoken p =? T_UNKNOWN)%Z.
+  { destruct (val (lx p)); intros H; inversion H; subst; try exact I.
+    unfold classify. repeat match goal with |- context [if ?c then _ else _] => destruct c end; exact I. }
+  destruct (ptoken p =? T_EOS)%Z eqn:Ee; [intros H; inversion H; exact I|].
+  destruct ((0 <? ptoken p)%Z && accepted_punct V (Z.to_N (ptoken p))) eqn:Ea; [|intros H; inversion H; exact I].
+  intros H. inversion H; subst. intros Hc.
+  apply andb_true_iff in Ea as [Hpos _]. apply Z.ltb_lt in Hpos.
+  destruct Hlh as [He|Hh]; [apply Z.eqb_neq in Ee; contradiction|].
+  rewrite Hh, andb_true_r.
+  assert (E : ptoken p = 91%Z) by (rewrite <- (Z2N.id (ptoken p)) by lia; rewrite Hc; reflexivity).
+  rewrite E. apply orb_true_r.
+Qed.
